@@ -202,12 +202,13 @@ fn one_run(ver: u8, rng: &mut Rng, name: &str, steps: usize, out: &mut dyn Write
                         if let Some(id) = id {
                             let mut wire_topic = topic.clone();
                             let mut ps: Vec<P> = vec![];
+                            let mut rebound: Option<(u16, Option<Vec<u8>>)> = None;
                             if ver == 5 && peer_tam > 0 && !amap && rng.chance(1, 3) {
                                 let a = 1 + rng.below(peer_tam as u64) as u16;
                                 if $side.alias.get(&a) == Some(&topic) && rng.chance(2, 3) {
                                     wire_topic.clear();
                                 } else {
-                                    $side.alias.insert(a, topic.clone());
+                                    rebound = Some((a, $side.alias.insert(a, topic.clone())));
                                 }
                                 ps.push(P::U16(35, a));
                             }
@@ -220,8 +221,18 @@ fn one_run(ver: u8, rng: &mut Rng, name: &str, steps: usize, out: &mut dyn Write
                             let bytes = w_publish(ver, 2, qos, false, false, &wire_topic, id, &ps, &tag);
                             let obs = $side.call(format!("send {} {}", ver, hex(&bytes)), false);
                             let refused = obs.iter().any(|o| matches!(o, Obs::Err(_)));
-                            if refused && !wire_topic.is_empty() {
-                                // a refused packet binds nothing
+                            if refused {
+                                // a refused packet binds nothing: the application's view of the alias goes back
+                                if let Some((a, prev)) = rebound {
+                                    match prev {
+                                        Some(t) => {
+                                            $side.alias.insert(a, t);
+                                        }
+                                        None => {
+                                            $side.alias.remove(&a);
+                                        }
+                                    }
+                                }
                             }
                             msgs.push(Msg { tag: tag.clone(), qos, topic: topic.clone(), from_client, accepted: !refused });
                         }
